@@ -648,11 +648,16 @@ func (b *assignmentBuilder) sliceToSlice(lhs, rhs bmodel.Node) (a gmodel.Assignm
 	}
 
 	if b.opts.Typecast && types.ConvertibleTo(rhsElem, lhsElem) {
+		cast := typeName(b.pkg, b.imports, lhsElem)
+		if util.IsPtr(lhsElem) {
+			// A conversion to a pointer type needs parentheses: (*T)(e).
+			cast = "(" + cast + ")"
+		}
 		a = gmodel.SliceTypecastAssignment{
 			LHS:  lhs.AssignExpr(),
 			RHS:  rhs.AssignExpr(),
 			Typ:  "[]" + typeName(b.pkg, b.imports, lhsElem),
-			Cast: typeName(b.pkg, b.imports, lhsElem),
+			Cast: cast,
 		}
 		return
 	}
